@@ -24,7 +24,7 @@ ASSUMPTIONS = [
     "the translation of a Python card into the token line of the Lean driver (encode_card) is trusted to be faithful",
     "export -> load (as_config) and the parameter-name / trainable / bound observables are validated on the implementation, not proved; the Lean model reproduces chains, (l,s) lists and parameter names (get_params key list)",
     "Python dict = association list in insertion order; str ordering = code-point order (Lean String <)",
-    "the grammar uses at most ONE $include file; with two includes and mixed alias/canonical spellings the loader lets the first include override the card (theorem alias_include_two_refuted on the model, two_include_demo on the implementation, recorded as a note unless REPORT_TWO_INCLUDE_ALIAS is set; proposed repair fixes/C19-fix_include_alias_override.diff)",
+    "the grammar uses at most ONE $include file; with two includes and mixed alias/canonical spellings the loader USED to let the first include override the card (repaired by /repo commit 4535060; theorem alias_include_two_refuted is about the model of the unrepaired merge; two_include_demo runs on the implementation on every check and is reported as a failure if the defect returns)",
     "export -> import: the model function Card.roundTrip (as_config restricted to J, P, C, mass, width, p_break, c_break) is compared with the real as_config -> ConfigLoader on every card; proved: the export keeps what the loader reads of every particle and decay (export_import_partial_qn/_ls) and one kernel-evaluated instance; the general round-trip theorem is not proved",
 ]
 
